@@ -137,8 +137,12 @@ def mono_lookup(t):
         dict(rule="R3", find="let next_idx: T = T::usize_as(next_idx as usize);", replace="let next_idx: %s = ((next_idx as usize) as %s);" % (t, t)),
         dict(rule="R3", find="let idx: T = *idx;", replace="let idx: %s = *idx;" % t),
         dict(rule="R3", find="match_indices.push((*idx - one).into());", replace="match_indices.push((*idx - one) as u64);"),
-        dict(rule="R1", find="for (i, &hash) in hash_values[start..end].iter().enumerate() {", replace="for i in 0..(end - start) { let hash = hash_values[start + i];"),
-        dict(rule="R1", find="for (i, &hash) in hash_values[to_skip..].iter().enumerate() {", replace="for i in 0..(hash_values.len() - to_skip) { let hash = hash_values[to_skip + i];"),
+        # R1 (generic): `for (I, &X) in S[a..b].iter().enumerate() {` / `S[a..]` / plain `S`  ->  range loop + indexed read
+        dict(rule="R1", regex=r"for \((\w+), &(\w+)\) in (\w+)\[(\w+)\.\.(\w+)\]\.iter\(\)\.enumerate\(\) \{", replace=r"for \1 in 0..(\5 - \4) { let \2 = \3[\4 + \1];", count="any"),
+        dict(rule="R1", regex=r"for \((\w+), &(\w+)\) in (\w+)\[(\w+)\.\.\]\.iter\(\)\.enumerate\(\) \{", replace=r"for \1 in 0..(\3.len() - \4) { let \2 = \3[\4 + \1];", count="any"),
+        dict(rule="R1", regex=r"for \((\w+), &(\w+)\) in (\w+)\.iter\(\)\.enumerate\(\) \{", replace=r"for \1 in 0..\3.len() { let \2 = \3[\1];", count="any"),
+        # R1 (generic): `let X = &S[a..];` -> verified prelude fn slice_from (vstd slice_subrange)
+        dict(rule="R1", regex=r"let (\w+) = &(\w+)\[(\w+)\.\.\];", replace=r"let \1 = slice_from(\2, \3);", count="any"),
         dict(rule="R13", regex=r"valid_keys\.is_some_and\(\|valid\| valid\.is_null\(([^()]*)\)\)", replace=r"key_is_null(valid_keys, \1)", count=2),
         dict(rule="R13", find="map.find(hash, |(h, _)| hash == *h)", replace="map_find(map, hash)", count=2),
         dict(rule="R11", find="(start + limit).min(hash_values.len())", replace="min_usize(start + limit, hash_values.len())"),
